@@ -11,7 +11,8 @@ JSONL format (one object per run; see harness/cmd/agentrun/main.go `Case`):
   k, class (refused|dry|pre|running|normal|bindfail), sub, steps [{name, depends}], handlers [exit|success|failure|cancel],
   dry, has_pre, pre_ok, retry, probe_running (another agent of the file was active), bind_ok,
   err (text, "" = nil), err_kind (none|cycle|missing|precondition|running|socket|step|other),
-  log: ordered list of "probe" | "removeold" | "open" | "write" | "close" | "exec:<step or handler name>",
+  log: ordered list of "probe" | "removeold" | "open" | "write" | "close" | "exec:<step or handler name>"
+       (| "panic:write-after-close": jsondb dereferenced its nil writer in a Write issued after Close - recovered by the driver),
   exec: sorted names whose executor Run was entered, hist_files: files under the data dir after the run,
   sock_seen / sock_after: the socket path existed during / after the run, final: agent.Status() text, duration_ms,
   hung (Run did not return within 6 s; the log is what was seen until then), stopped (it returned after the driver's SIGTERM),
@@ -100,7 +101,7 @@ def monitor(c):
 
 def coq_case(c):
     steps = clist(["mk %s %s" % (cstring(s["name"]), clist([cstring(d) for d in s["depends"]])) for s in c["steps"]])
-    log = clist([str(EV.get(x, 5)) for x in c["log"]])
+    log = clist([str(EV.get(x, 5)) for x in c["log"] if not x.startswith("panic:")])
     chk_sock = not c["probe_running"] and c["class"] != "running" and c["bind_ok"]
     hist = len(c["hist_files"]) > 0 if c["class"] != "running" else ("open" in c["log"])
     return "((%s, %s, %s, %s, %s, %s, %s), (%s, %s, %s, %s))" % (
